@@ -29,7 +29,8 @@ REQUIRED_COUNTERS = ['tables_checked', 'parents_checked',
                      'tables_with_over_255_markers_one_way']
 RULE = ('case = reference-marker table (synthesised from random up / down '
         'tables: dense, sparse, pairs with no marker, pairs short of the '
-        'target in one or both directions; or produced by the pipeline) x '
+        'target in one or both directions, pairs with 256 / 258 / 512 markers '
+        'one way under tiny parents; or produced by the pipeline) x '
         'taxonomy x query gene subset x per-direction target 1..15 x '
         'per-parent override x 1-4 workers x large-parent threshold from 0 '
         'to huge.  Non-trivial = at least one pair whose coverage bound is '
